@@ -65,7 +65,7 @@ static std::string sym_target(Rng &r, bool cursor_ok)
 {
 	char t[48];
 	int m = (int)r.below(8);
-	uint64_t d = r.below(100);
+	uint64_t d = cursor_ok ? r.below(100) : 40 + r.below(60);
 	if (cursor_ok && d < 40) {
 		static const char *c[] = { "@cur", "@cf", "@cl", "@pf", "@nf", "@rs" };
 		uint64_t w = r.below(10);
@@ -74,7 +74,7 @@ static std::string sym_target(Rng &r, bool cursor_ok)
 		else snprintf(t, sizeof t, "%s:%d", base, r.chance(1, 2) ? 0 : m);
 		return t;
 	}
-	if (d < 50) return "@end";
+	if (d < 46) return "@end";
 	if (d < 65) { snprintf(t, sizeof t, "@s%d:%d", (int)r.below(400), r.chance(1, 3) ? 0 : m); return t; }
 	if (d < 75) { snprintf(t, sizeof t, "@f%d:%d", (int)r.below(400), r.chance(1, 3) ? 0 : m); return t; }
 	if (d < 85) { snprintf(t, sizeof t, "@l%d:%d", (int)r.below(400), r.chance(1, 3) ? 0 : m); return t; }
